@@ -426,13 +426,23 @@ func (w *world) localData(rng *rand.Rand) string {
 	}
 }
 
+// values handed over to the stack are allocated before the workers start, so that the
+// harness's own initialising writes never appear as one side of a report
+var (
+	scenarios = []model.UseCaseScenarioSupportType{1, 2, 3}
+	descX     = util.Ptr(model.DescriptionType("x"))
+	descY     = util.Ptr(model.DescriptionType("y"))
+	descZ     = util.Ptr(model.DescriptionType("z"))
+	delay3s   = util.Ptr(model.MaxResponseDelayType("PT3S"))
+)
+
 var ucNames = []model.UseCaseNameType{model.UseCaseNameTypeControlOfBattery, model.UseCaseNameTypeEVSECommissioningAndConfiguration, model.UseCaseNameTypeEVChargingSummary}
 
 func (w *world) useCases(ent api.EntityLocalInterface, rng *rand.Rand) string {
 	name := ucNames[rng.Intn(len(ucNames))]
 	switch rng.Intn(5) {
 	case 0, 1:
-		ent.AddUseCaseSupport(model.UseCaseActorTypeCEM, name, "1.0.0", "release", true, []model.UseCaseScenarioSupportType{1, 2, 3})
+		ent.AddUseCaseSupport(model.UseCaseActorTypeCEM, name, "1.0.0", "release", true, scenarios)
 		return "api.AddUseCaseSupport"
 	case 2:
 		ent.SetUseCaseAvailability(model.UseCaseActorTypeCEM, name, rng.Intn(2) == 0)
@@ -578,7 +588,7 @@ func (w *world) setters(rng *rand.Rand) string {
 		w.mServer.SetDescriptionString(fmt.Sprintf("d%d", rng.Intn(10)))
 		return "api.SetDescriptionString"
 	case 1:
-		w.mServer.SetDescription(util.Ptr(model.DescriptionType("x")))
+		w.mServer.SetDescription(descX)
 		return "api.SetDescription"
 	case 2:
 		w.lcServer.SetWriteApprovalTimeout(time.Duration(20+rng.Intn(20)) * time.Millisecond)
@@ -593,11 +603,11 @@ func (w *world) setters(rng *rand.Rand) string {
 			return "api.setters(no device)"
 		}
 		for _, e := range rd.Entities() {
-			e.SetDescription(util.Ptr(model.DescriptionType("y")))
+			e.SetDescription(descY)
 			for _, f := range e.Features() {
-				f.SetMaxResponseDelay(util.Ptr(model.MaxResponseDelayType("PT3S")))
+				f.SetMaxResponseDelay(delay3s)
 				f.SetOperations(nil)
-				f.SetDescription(util.Ptr(model.DescriptionType("z")))
+				f.SetDescription(descZ)
 			}
 		}
 		return "api.remote-setters"
